@@ -951,7 +951,7 @@ def run_check(tier, seed):
                 fails.append((f[0], f[1], dict(script=text, nprocs=nprocs, replay='mpiexec -n %d apirun(asan build) <script> out' % nprocs)))
         # metadata-heavy and multi-request programs of the shared generators (copy_att over existing attributes of another
         # type, rename/delete, redefinition, cancel, abort; many varn segments, interleaving nonblocking requests per wait)
-        nshared = 8 if tier == 'quick' else 60
+        nshared = 12 if tier == 'quick' else 60
         for k in range(nshared):
             nprocs = rng.choice([1, 1, 2])
             p = apigen.gen_meta_program(rng, 'sh_%d.nc' % k, nprocs) if k % 2 == 0 else apigen.gen_mix_program(rng, 'sh_%d.nc' % k, nprocs, focus=['burst', None, 'recvarn'][(k // 2) % 3])
